@@ -182,6 +182,82 @@ def depth(t):
     return 1 + max([depth(c) for c in t[1:] if isinstance(c, list)] + [0])
 
 
+def s_tree_magnitude_ok(t, point, limit=1e15):
+    """Double-precision screen of a SymPy-side tree: False when some sub-expression is non-finite or larger than `limit` at
+    the point (outside what a double comparison can decide - and exact integer/Mod arithmetic on such values in SymPy can
+    take hours).  Errors (domain, overflow, division by zero) also give False."""
+    import math as m_
+
+    def ev(t):
+        k = t[0]
+        if k == "sym":
+            return float(point.get(t[1], 0.0))
+        if k == "int":
+            return float(t[1])
+        if k == "rat":
+            return t[1] / t[2]
+        if k == "float":
+            return float(t[1])
+        if k == "pi":
+            return m_.pi
+        if k == "mat":
+            for row in t[1]:
+                for e in row:
+                    ev(e)
+            return 0.0
+        a = [ev(c) for c in t[1:] if isinstance(c, list)]
+        if k == "add":
+            v = sum(a)
+        elif k == "mul":
+            v = 1.0
+            for x in a:
+                v *= x
+        elif k == "ipow":
+            v = a[0] ** int(t[2])
+        elif k == "sqrtp":
+            v = m_.sqrt(a[0] ** 2 + 1)
+        elif k == "rpow":
+            v = (a[0] ** 2 + 1) ** (t[2] / t[3])
+        elif k == "fpow":
+            v = (a[0] ** 2 + 1) ** float(t[2])
+        elif k in ("sin", "cos", "tan", "atan", "exp", "log"):
+            v = getattr(m_, k)(a[0])
+        elif k == "abs":
+            v = abs(a[0])
+        elif k == "max":
+            v = max(a)
+        elif k == "mod":
+            v = m_.fmod(a[0], a[1])
+        elif k == "piecewise":
+            v = max(abs(x) for x in a)
+        elif k == "reuse":
+            v = m_.sin(a[0]) * m_.cos(a[0]) + a[0] ** 2
+        elif k == "user":
+            x = ev(t[2])
+            v = max(abs(2 * m_.sin(x)), abs(x * x + 1), abs(m_.cos(x) - x))  # any binding of f1..f3
+        elif k == "sfun":
+            name = t[1]
+            if name in ("Max", "Min", "Mod", "atan2"):
+                v = max(abs(x) for x in a)
+            elif name in ("exp", "sinh", "cosh"):
+                v = m_.exp(abs(a[0]))
+            elif name == "log":
+                v = m_.log(a[0])
+            else:
+                v = max(abs(a[0]), 2.0)
+        else:
+            raise ValueError(k)
+        if not m_.isfinite(v) or abs(v) > limit:
+            raise OverflowError
+        return v
+
+    try:
+        ev(t)
+        return True
+    except Exception:
+        return False
+
+
 def sympy_ref_value(expr, point, user=True, binding=None):
     """30-digit value of the source SymPy expression with user functions expanded by their definitions."""
     e = expr
@@ -316,6 +392,7 @@ def only_supported_nodes(expr):
 
 
 def check_s2c(case, must_convert=True):
+    require(s_tree_magnitude_ok(case["tree"], case["point"]))  # out-of-range / out-of-domain points: discarded (counted)
     try:
         expr, f_ca, table = convert_s2c(case)
     except NotImplementedError:
